@@ -96,6 +96,7 @@ func c07Run(c c07Case, base string) (res c07Result) {
 	}
 	os.Setenv("DTAIL_HOSTNAME_OVERRIDE", "vhost")
 	res.Lines = total
+	dirGlob := map[string]bool{}
 	for ci := 0; ci < nconn; ci++ {
 		// the command direction is an ordinary copy loop
 		go func(ci int) {
@@ -110,11 +111,19 @@ func c07Run(c c07Case, base string) (res c07Result) {
 				}
 			}
 		}(ci)
+		// the same files under different spellings of the glob (the identifier of a file must not depend on it)
+		srng := rand.New(rand.NewSource(c.Seed + int64(ci)*7919))
+		glob := dir + []string{"/", "/", "//", "/./"}[srng.Intn(4)] + hosts[ci] + []string{"/", "/", "//", "/./"}[srng.Intn(4)] + "*.log"
+		if srng.Intn(4) == 0 {
+			// wildcards in a directory component and in the file name: the identifier is "<directory>/<file>"
+			glob = dir + []string{"/", "//", "/./"}[srng.Intn(3)] + hosts[ci] + "*/*.log"
+			dirGlob[hosts[ci]] = true
+		}
 		if c.Grep {
 			chs[ci].SendMessage(fmt.Sprintf("grep:quiet=true:before=%d:after=%d %s regex:default %s", 1+rng.Intn(3), rng.Intn(2),
-				filepath.Join(dir, hosts[ci], "*.log"), []string{"7", "[a-c]x", ":a", "9.*z"}[rng.Intn(4)]))
+				glob, []string{"7", "[a-c]x", ":a", "9.*z"}[rng.Intn(4)]))
 		} else {
-			chs[ci].SendMessage(fmt.Sprintf("cat:quiet=true %s regex:noop ", filepath.Join(dir, hosts[ci], "*.log")))
+			chs[ci].SendMessage(fmt.Sprintf("cat:quiet=true %s regex:noop ", glob))
 		}
 	}
 	if c.Kind == "bulk" {
@@ -192,7 +201,15 @@ func c07Run(c c07Case, base string) (res c07Result) {
 			res.Bad = append(res.Bad, fmt.Sprintf("not a REMOTE record: %.100q", rec))
 			continue
 		}
-		key := f[1] + "|" + f[4]
+		id := f[4]
+		if dirGlob[f[1]] {
+			if !strings.HasPrefix(id, f[1]+"/") {
+				res.Bad = append(res.Bad, fmt.Sprintf("file identifier %q of host %s is not <directory>/<file>: %.80q", id, f[1], rec))
+				continue
+			}
+			id = strings.TrimPrefix(id, f[1]+"/")
+		}
+		key := f[1] + "|" + id
 		lines, ok := source[key]
 		var n int
 		fmt.Sscanf(strings.TrimSpace(f[3]), "%d", &n)
